@@ -9,6 +9,9 @@ COMMON_TB = [
 def nontriv_iv(l):
     return "bot" not in l and "(iv -oo +oo)" not in l
 
+FIX_COMPONENT = {"harness": "h_fix", "quick": 64000, "thorough": 1600000, "shards": 16,
+                 "nontrivial": lambda l: bool(__import__("re").search(r"\(wto[^=]*\(\d+", l))}
+
 PROPS = {
     "C08": {
         "level": "proof",
@@ -21,5 +24,17 @@ PROPS = {
             "concrete semantics of the operations on mathematical integers: sdiv/srem truncate, division/remainder by zero has no successor, ashr = floor division by 2^k, lshr/udiv/urem only checked on non-negative operands, and/or/xor = infinite two's complement",
         ],
         "trusted_base": COMMON_TB + ["models: CrabModel/Scalar/{Bound,Interval}.lean, CrabModel/Num/ZNum.lean (hand written, tied by exact correspondence E)"],
+    },
+    "C06": {
+        "level": "proof",
+        "lean_modules": ["CrabProofs.Props.C06"],
+        "components": [FIX_COMPONENT],
+        "rule": "random CFGs (1-8 blocks quick, 1-14 thorough; self loops, nested and irreducible cycles, unreachable blocks with edges into loops) over 1-6 (10) concrete states, random per-block transition relations, random cfg entry, start block among the reachable blocks, assumption maps, delay 0-3, descending 0-3, widening join|jump-to-top, narrowing meet|classic; non-trivial = the ordering contains a cycle; distinct = distinct request lines",
+        "assumptions": [
+            "the WTO, nesting table and predecessor order are taken from the implementation's own data structures (inputs of the iterator model); the WTO itself is property C07",
+            "admissible start blocks for exactness: the first block of the ordering (cfg entry, may head a loop) or a block outside every loop; other reachable start blocks are checked for soundness and model equality only",
+            "concrete semantics of an assumption map: a state entering block b survives iff it is in asm(b)",
+        ],
+        "trusted_base": COMMON_TB + ["model: CrabModel/Fix/Interleaved.lean (hand written transcription of wto_iterator, tied by exact table equality on every generated CFG)"],
     },
 }
